@@ -4,11 +4,16 @@
 The task text holds only the property's title / statement / quantifier and the summaries of changes
 kept from earlier rounds (so that new ones differ); nothing else from /verif."""
 import json, glob, os, subprocess, sys, collections
-root = sys.argv[1]; only = sys.argv[2:]
+root = sys.argv[1]; only = [a for a in sys.argv[2:] if not a.startswith('--extra-prior=')]
+extra = [a.split('=', 1)[1] for a in sys.argv[2:] if a.startswith('--extra-prior=')]
 tpl = open(os.path.dirname(os.path.abspath(__file__)) + '/seeded_task_template.md').read()
 prior = collections.defaultdict(list)
 for m in sorted(glob.glob('/verif/seeded/*/meta.json')):
     j = json.load(open(m)); prior[j['breaks_property']].append(j['summary'] or '')
+for e in extra:  # summaries of a round that is not (completely) under /verif/seeded yet
+    for m in sorted(glob.glob(e + '/C*/out/m[0-9].json')):
+        j = json.load(open(m))
+        if j.get('summary') and j['summary'] not in prior[j['property']]: prior[j['property']].append(j['summary'])
 for l in open('/verif/properties.jsonl'):
     p = json.loads(l); i = p['id']
     if only and i not in only: continue
